@@ -388,6 +388,24 @@ def check(ctx):
             ctx.ob("M-LOSS-IDLE", "%s connectionLost reaches the state reset (%s)" % (cls_short(cls.qual), what), idle_before, where=where(e),
                    function=e.func, construct="%s/connectionLost/%s" % (cls.qual, what),
                    msg="%s: the exception leaves connectionLost before self.state = IDLE, the protocol stays CONNECTED on a dead transport" % why)
+    # the operations' effects happen only behind the state dispatch: an entry point that is open in every state (the setters) and
+    # does not ask the state object must not send, queue, arm or settle anything - otherwise an operation takes effect (a PUBLISH
+    # held back earlier is written, a timer starts) in a state that does not allow it
+    for cls in a.protos:
+        cat = catalogue(a, cls)
+        seen_aux = set()
+        for tr in contexts(cat):
+            if tr.kind != "AUX" or any(e.kind == "DISPATCH" for e in tr.events):
+                continue
+            for e in tr.events:
+                if e.kind in ("WRITE", "ARM", "REG", "UNREG", "FIRE", "CLOSE") and (e.func, e.kind) not in seen_aux:
+                    seen_aux.add((e.func, e.kind))
+                    ctx.ob("M-AUX", "%s %s() has no protocol effect outside the state dispatch" % (cls_short(cls.qual), short(tr.name)), False,
+                           where=where(e), function=e.func, construct="%s/effect-outside-dispatch/%s/%s" % (e.func, short(tr.name), e.kind),
+                           msg="%s() is accepted in every state and, without consulting the state object, performs %s: the effect of an operation "
+                               "takes place while IDLE (or on a connection that is still connecting)" % (short(tr.name), e.brief()))
+        ctx.ob("M-AUX", "%s entry points outside the state dispatch have no protocol effects" % cls_short(cls.qual), not seen_aux, nontrivial=False,
+               where=cls.module.path, construct="%s/effect-outside-dispatch" % cls.qual)
     # the protocol is idle again only "after a loss or a refused CONNACK": any other context that declares it idle opens connect()
     # on a connection that is still there (and shuts the operations its real state allows)
     for cls in a.protos:
